@@ -29,6 +29,8 @@ SKIP_METHODS = {"__init__", "__post_init__", "update", "normalize", "update_Sigm
 FIRST = 2      # numpy variant: the first FIRST boundary calls of every (Class.method[flags]) key
 FIRST_INT = 8  # int variant: the first FIRST_INT calls (it cycles through the roundable inputs)
 EVERY = 25     # ... and every EVERY-th one afterwards (both variants)
+FIRST_JIT = 1  # jit variant: the first call of a key (tracing and compiling is the expensive part)
+JIT_MOD = 1    # ... for the keys whose hash is 0 modulo JIT_MOD (set by the worker per tier)
 TOL = 1e-8
 
 _counts = {}
@@ -121,12 +123,16 @@ def _leaves(o, path, out, depth=0):
             _leaves(v, f"{path}.{k}", out, depth + 1)
 
 
-def compare(ref, alt):
+def compare(ref, alt, probe=None):
     """first disagreement between two results (None if they agree). Only leaves present on both
-    sides are compared (a lazily filled cache may exist on one side only)."""
-    a, b = {}, {}
+    sides are compared (a lazily filled cache may exist on one side only). probe: a third result,
+    obtained from inputs perturbed at the 1e-14 level - its distance from ref measures how far
+    rounding alone moves each leaf, and ten times that distance is added to the tolerance."""
+    a, b, c = {}, {}, {}
     _leaves(ref, "result", a)
     _leaves(alt, "result", b)
+    if probe is not None:
+        _leaves(probe, "result", c)
     for k, va in a.items():
         if k not in b:
             continue
@@ -147,10 +153,46 @@ def compare(ref, alt):
             continue
         scale = 1.0 + float(np.max(np.abs(fa[fin])))
         err = float(np.max(np.abs(fa[fin] - fb[fin])))
-        if err > TOL * scale:
-            return {"leaf": k, "max_abs_err": err, "err_over_tol": err / (TOL * scale),
+        tol = TOL * scale
+        if probe is not None:
+            vc = c.get(k)
+            if vc is None or isinstance(vc, str) or vc.shape != va.shape:
+                continue  # sensitivity unknown: not judged
+            fc = vc.astype(float)
+            if not np.all(np.isfinite(fc[fin])):
+                continue
+            tol += 10.0 * float(np.max(np.abs(fa[fin] - fc[fin])))
+        if err > tol:
+            return {"leaf": k, "max_abs_err": err, "err_over_tol": err / tol,
                     "ref": fa, "alt": fb}
     return None
+
+
+def perturbed(o, rng, depth=0):
+    """clone with every float array multiplied entry-wise by 1 + 1e-14 N(0,1) (symmetric noise
+    for square trailing dimensions, so covariances stay symmetric)."""
+    from jax import numpy as jnp
+
+    if _is_jax(o) and np.issubdtype(o.dtype, np.floating):
+        a = np.asarray(o, dtype=np.float64)
+        n = rng.standard_normal(a.shape)
+        if a.ndim >= 2 and a.shape[-1] == a.shape[-2]:
+            n = 0.5 * (n + np.swapaxes(n, -1, -2))
+        return jnp.asarray(a * (1.0 + 1e-14 * n))
+    if depth > 4:
+        return o
+    if isinstance(o, tuple):
+        return tuple(perturbed(x, rng, depth + 1) for x in o)
+    if isinstance(o, list):
+        return [perturbed(x, rng, depth + 1) for x in o]
+    if isinstance(o, dict) and not _is_libobj(o):
+        return {k: perturbed(v, rng, depth + 1) for k, v in o.items()}
+    if _is_libobj(o):
+        c = object.__new__(type(o))
+        for k, v in o.__dict__.items():
+            object.__setattr__(c, k, perturbed(v, rng, depth + 1))
+        return c
+    return o
 
 
 def all_finite(res):
@@ -310,6 +352,59 @@ def clone_state(o, depth=0):
     return o
 
 
+def _jit_selected(key):
+    import zlib
+
+    return JIT_MOD <= 1 or zlib.crc32(key.encode()) % JIT_MOD == 0
+
+
+def _is_dynamic(a):
+    if _is_libobj(a):
+        return True
+    return hasattr(a, "dtype") and hasattr(a, "ndim") and np.issubdtype(a.dtype, np.floating)
+
+
+def _run_jit(fn, key, res, self0, args0, kwargs0, rec, report, count):
+    import jax
+
+    if not _is_libobj(self0):
+        return
+    pos = [i for i, a in enumerate(args0) if _is_dynamic(a)]
+    kws = [k for k, a in kwargs0.items() if _is_dynamic(a)]
+
+    def f(s, dyn_a, dyn_k):
+        a = list(args0)
+        for i, v in zip(pos, dyn_a):
+            a[i] = v
+        k = dict(kwargs0)
+        for n, v in zip(kws, dyn_k):
+            k[n] = v
+        return fn(s, *a, **k)
+
+    try:
+        r_jit = jax.jit(f)(self0, [args0[i] for i in pos], [kwargs0[k] for k in kws])
+    except Exception as e:
+        rec.count("form_unsupported:jit")
+        if len(rec.notes) < 8:
+            rec.notes.append(f"FORM jit unsupported at {key}: {type(e).__name__}")
+        return
+    # compiled code rounds differently (fusion, other reduction orders): the distance the
+    # eager result itself moves under a 1e-14 perturbation of the inputs is the yardstick
+    try:
+        prng = np.random.default_rng(12345)
+        r_pert = fn(perturbed(self0, prng), *perturbed(args0, prng), **perturbed(kwargs0, prng))
+    except Exception:
+        rec.count("form_jit_probe_raises")
+        return
+    count("FORM", key)
+    rec.evaluations += 1
+    rec.count("form_jit_evaluated")
+    bad = compare(res, r_jit, probe=r_pert)
+    if bad is not None:
+        report("FORM", "jit-value", key, dict(bad, variant="the same call under jax.jit with "
+                                              "receiver and numeric arguments traced"))
+
+
 def run(fn, name, key, res, pre, state, report, count):
     """called by the boundary wrapper after a successful call. pre = clone taken *before* the
     call (receiver and arguments in the state the call saw them)."""
@@ -349,6 +444,10 @@ def run(fn, name, key, res, pre, state, report, count):
                            {"before": pristine, "after": arr.copy(),
                             "variant": "an array handed to the library was modified in place"})
                     break
+    # ---- jit variant: the same call traced and compiled, receiver and numeric arguments as
+    # traced arguments (pytrees), everything else (strings, index arrays, flags) closed over
+    if n_call <= FIRST_JIT and _jit_selected(key):
+        _run_jit(fn, key, res, self0, args0, kwargs0, rec, report, count)
     # ---- int variant
     cands = _candidates(self0, args0, kwargs0)
     if not cands:
